@@ -209,6 +209,14 @@ def main():
     if src_changed and ctx.escalate == 1 and os.environ.get("PF_NO_FINGERPRINT") != "1":
         ctx.escalate = 4 if tier == "quick" else 2
     ctx.replay = json.load(open(replay)) if replay else None
+    import signal
+    from common import Hang
+
+    def _on_alarm(*_):
+        raise Hang()
+    signal.signal(signal.SIGALRM, _on_alarm)
+    ctx.watchdog = int(os.environ.get("PF_WATCHDOG", "300" if tier == "quick" else "1200")) * (1 if ctx.escalate == 1 else 3)
+    ctx.beat()
     try:
         mod = importlib.import_module(f"props.{prop.lower()}")
         mod.run(ctx)
@@ -220,9 +228,11 @@ def main():
                 ext.run(ctx)
                 ctx.flush()
     except DriverError as e:
+        signal.alarm(0)
         print(f"BROKEN: {e}")
         sys.exit(2)
-    except Exception as e:
+    except (Exception, Hang) as e:
+        signal.alarm(0)
         tb = traceback.format_exc()
         frames = traceback.extract_tb(e.__traceback__)
         from common import REPO
@@ -233,7 +243,9 @@ def main():
             last = impl_frames[-1]
             ctx.failures.append({"desc": {"op": "implementation raised inside a harness call", "where": f"{os.path.basename(last.filename)}:{last.lineno} in {last.name}",
                                           "last_cases": [c[1] for c in ctx.cases[-2:]]},
-                                 "kind": "spec", "what": f"implementation raised {type(e).__name__}: {str(e)[:200]} at {os.path.basename(last.filename)}:{last.lineno} ({last.name}) on a generated valid input",
+                                 "kind": "spec", "what": (f"implementation did not return within {ctx.watchdog} s (stopped at {os.path.basename(last.filename)}:{last.lineno} in {last.name}) on a generated valid input"
+                                                          if isinstance(e, Hang) else
+                                                          f"implementation raised {type(e).__name__}: {str(e)[:200]} at {os.path.basename(last.filename)}:{last.lineno} ({last.name}) on a generated valid input"),
                                  "traceback": tb[-1500:]})
             try:
                 ctx.flush()
